@@ -139,6 +139,13 @@ def run(unit, seed=0, rlimit=None, extra=None, only_fn=None, multiple_errors=8):
     # every labelled clause of the templates must have become an obligation (a label the scanner cannot attach to a function would silently drop a clause)
     _have = {k.split("/", 1)[1] for k, v in obs.items() if v["kind"] in ("clause", "lemma")}
     _lost = [l for l in set(meta["labels"].values()) if not any(h == l or h.endswith("::" + l.split("::")[-1]) for h in _have)]
+    # a clause stated on a trait method whose impls are all assumed in this unit (assume_body: proved in another unit) yields no obligation here
+    _trait_assumed = set()
+    for _ln, _name in meta.get("trait_label_lines", {}).items():
+        _impls = [f for f in meta["fns"] if f["has_body"] and f["name"] == _name and f.get("qname", "").startswith("<") and " for " in f.get("qname", "")]
+        if _impls and all(f.get("external") for f in _impls):
+            _trait_assumed.add(meta["labels"][_ln] if _ln in meta["labels"] else meta["labels"].get(int(_ln)))
+    _lost = [l for l in _lost if l not in _trait_assumed]
     if _lost:
         res["status"] = "tool-error"
         res["undecided"].append("labelled clause without obligation (template/scanner problem): " + ", ".join(sorted(_lost)))
